@@ -28,7 +28,11 @@ type K struct {
 }
 
 func (a *Analyzer) Anchors() *K {
+	if a.anchors != nil {
+		return a.anchors
+	}
 	k := &K{A: a}
+	a.anchors = k
 	k.TIC = This("termincommittee.TermInCommittee")
 	k.Cmt = Field(k.TIC, "committeeMembers")
 	k.KM = This("interfaces.KeyManager")
